@@ -302,7 +302,7 @@ pub fn check_one(sh: &mut Shard, a: &IG, lat: &Lat, verbose: bool) {
             if !cs.is_empty() && lat.sh > -1000 {
                 let (x0, x1) = (cs.iter().map(|c| c.0).min().unwrap(), cs.iter().map(|c| c.0).max().unwrap());
                 let (y0, y1) = (cs.iter().map(|c| c.1).min().unwrap(), cs.iter().map(|c| c.1).max().unwrap());
-                let half = 2f64.powi(lat.sh - 1);
+                let half = crate::q::pow2(lat.sh - 1);
                 'grid: for hx in (2 * x0 - 2)..=(2 * x1 + 2) {
                     for hy in (2 * y0 - 2)..=(2 * y1 + 2) {
                         let q = (Q::new(hx as i128, 2), Q::new(hy as i128, 2));
